@@ -9,6 +9,8 @@ from __future__ import annotations
 import math
 
 LN2 = math.log(2.0)
+# the same tables as LTab in spec/GFIBase.tla (log2-probabilities of the values 0,1,2 per parent value)
+LTAB = [[[-1, -2, -2], [-2, -1, -2], [-2, -2, -1]], [[-2, -2, -1], [-1, -2, -2], [-1, -2, -2]]]
 _cache = {}
 
 
@@ -141,6 +143,10 @@ def eval_e(x, args, xargs, env):
         return tuple(eval_e(k, args, xargs, env) for k in x["k"])
     if e == "ix":
         return eval_e(x["k"][0], args, xargs, env)[x["i"] - 1]
+    if e == "lrow":      # row of a dyadic log2-probability table -> float logits
+        tab = jnp.array(LTAB[x["i"] - 1], dtype=jnp.float32) * LN2
+        r = eval_e(x["k"][0], args, xargs, env) if x["k"] else 0
+        return tab[r]
     raise ValueError(e)
 
 
@@ -164,6 +170,9 @@ def build(p):
             env = []
             for addr, callee, aexprs, cterm in sites:
                 a = [eval_e(e, args, (), env) for e in aexprs]
+                if cterm["k"] == "cat":
+                    env.append(callee(logits=a[0]) @ addr)
+                    continue
                 env.append(callee(*conv_call_args(cterm, a)) @ addr)
             return eval_e(ret, args, (), env)
 
@@ -277,6 +286,33 @@ def proj_chm(chm, addrs, decoys=True):
             out.append([path, {"error": "nonscalar"}])
             continue
         out.append([path, int(round(float(a)))])
+    out.sort(key=lambda e: e[0])
+    return out
+
+
+def proj_chm_batched(chm, rel_addrs):
+    """choices of a (possibly stacked) sub-trace: for each relative leaf address the value, which is a scalar or
+    an array over leading batch dimensions -> entries [index components + relative address, value]."""
+    import numpy as np
+    from genjax import Mask
+    out = []
+    for path in rel_addrs:
+        pp = path_py(path)
+        sub = chm(*pp) if pp else chm
+        v = sub.get_value()
+        if v is None:
+            continue
+        fl = None
+        if isinstance(v, Mask):
+            fl = np.asarray(v.flag)
+            v = v.value
+        a = np.asarray(v)
+        if fl is None:
+            fl = np.ones(a.shape, dtype=bool)
+        fl = np.broadcast_to(fl, a.shape)
+        for ix in np.ndindex(*a.shape):
+            if bool(fl[ix]):
+                out.append([[str(i) for i in ix] + list(path), int(round(float(a[ix])))])
     out.sort(key=lambda e: e[0])
     return out
 
